@@ -213,6 +213,12 @@ func init() {
 	}
 	// ---- thread mode (threads.go)
 	intrinsics["vThreads"] = func(fr *frame, args []value) value { threadsStart(); return nil }
+	// vSchedulePolicy(k): 0 = lowest-numbered runnable goroutine next (default), 1 = highest-numbered next, 2 = round robin
+	intrinsics["vSchedulePolicy"] = func(fr *frame, args []value) value {
+		threadsStart()
+		sch.policy = int(asInt64(args[0]))
+		return nil
+	}
 	intrinsics["vYield"] = func(fr *frame, args []value) value {
 		if sch != nil {
 			sch.yield()
@@ -245,7 +251,9 @@ func init() {
 		t.armed = false
 		if t.f == nil {
 			// a NewTimer: the expiry time arrives on C (dropped when nobody took the previous one)
-			if len(t.c.buf) == 0 {
+			if sch != nil {
+				t.c.offer(zero(t.elem))
+			} else if len(t.c.buf) == 0 {
 				t.c.push(zero(t.elem))
 			}
 			return nil
